@@ -165,12 +165,12 @@ def decl_name(block):
 SUBSET_RECIPES = [("arrNew",), ("arrNew", "arrNewPat"), ("strOwned",), ("vecRet",), ("Item",), ("Holder",),
                   ("arrNewAlloc",), ("vecRetD",), ("vecAlloc",), ("Box", "makeBox"), ("strVal",), ("deep",),
                   ("Item", "makeItem", "copyItem"), ("vecIota", "vecAlloc", "vecRet"),
-                  ("Pt", "ptSum", "ptOut"), ("Arr", "arrTotal"), ("Bag",), ("Pt", "Arr", "arrTotal", "ptScale")]
+                  ("Pt", "ptSum", "ptOut"), ("Arr", "arrTotal"), ("Bag",), ("Rec", "recSum"), ("Pt", "Arr", "arrTotal", "ptScale")]
 # not in F_CFI variants: std::vector results (shroud cannot generate them), char** (other Fortran
 # interface), strFinal (its user-written 'final' clause is a c_buf statement, there is no such hook
 # for the CFI wrapper)
 CFI_UNSUPPORTED = ("vecRet", "vecRetD", "deep", "extraVecD", "charArrLen", "strFinal")
-NEEDS_CLASS = {"ptSum": "Pt", "ptOut": "Pt", "ptScale": "Pt", "arrTotal": "Arr", "makeItem": "Item", "borrowItem": "Item", "defaultItem": "Item", "copyItem": "Item", "useItem": "Item",
+NEEDS_CLASS = {"recSum": "Rec", "ptSum": "Pt", "ptOut": "Pt", "ptScale": "Pt", "arrTotal": "Arr", "makeItem": "Item", "borrowItem": "Item", "defaultItem": "Item", "copyItem": "Item", "useItem": "Item",
                "sumItems": "Item", "passItem": "Item", "refItem": "Item", "makeBox": "Box"}
 # declarations that (as documented) hand nothing to the caller that needs releasing
 NEUTRAL = ["arrSumD", "charArrTwo", "arrInOut", "strRef", "strLib", "strIn", "charOut", "charRet", "charInout", "arrLib", "arrSum", "arrFillOut",
@@ -252,7 +252,7 @@ class Build(object):
                     return word in fp.read()
             except OSError:
                 return False
-        for cls in ("Item", "Box", "Holder", "deep", "Pt", "Bag"):
+        for cls in ("Item", "Box", "Holder", "deep", "Pt", "Bag", "Rec"):
             if self.have is None or cls in self.have:
                 flags.append("-DHAVE_" + cls)
         if has("typessimlib.h", "SIM_SHROUD_array"):
@@ -275,6 +275,8 @@ class Build(object):
             for f in os.listdir(SUBJECT_C):
                 if f != "simc.yaml":
                     shutil.copy(os.path.join(SUBJECT_C, f), self.dir)
+        os.makedirs(os.path.join(self.dir, "numpy"), exist_ok=True)
+        shutil.copy(os.path.join(SUBJECT, "numpy_stub.h"), os.path.join(self.dir, "numpy", "arrayobject.h"))
         with open(os.path.join(self.dir, self.lib + ".yaml"), "w") as fp:
             fp.write(self.yaml_text)
         code = ("import sys; sys.path.insert(0, %r); import shroud.main; "
@@ -376,7 +378,8 @@ class Build(object):
             jobs.append((f, ["g++"] + CXXFLAGS + ["-c", f, "-o", f[:-4] + ".o"]))
         if "py" in self.drivers:
             for f in pycxx:
-                jobs.append(("py:" + f, ["g++"] + CXXFLAGS + ["-I" + py_include(), "-c", f, "-o", "py_" + f[:-4] + ".o"]))
+                jobs.append(("py:" + f, ["g++"] + CXXFLAGS + ["-I" + py_include(), "-I" + self.dir, "-c", f, "-o",
+                                                           "py_" + f[:-4] + ".o"]))
         if "c" in self.drivers:
             jobs.append(("drv_c.c", ["gcc"] + CFLAGS + self.defines() + ["-c", "drv_c.c", "-o", "drv_c.o"]))
         errs = {}
